@@ -962,7 +962,7 @@ func TestVerif_C17_Sim(t *testing.T) {
 	}
 	// level sizes (measured): trimmed alphabet 11 / 129 / 1174 / 9022 / ~75k; full alphabet 25 / ~600 / ~12k.
 	// The wall budget is only tested between levels, so the level-size cap is what bounds the cost.
-	runs := []run{{"eor", 4, 150 * time.Second, 20000}, {"d0", 2, 30 * time.Second, 20000}}
+	runs := []run{{"eor", 4, 150 * time.Second, 20000}, {"d0", 3, 30 * time.Second, 20000}, {"eor;full", 2, 30 * time.Second, 20000}}
 	if vr.Thorough() {
 		runs = []run{{"eor", 6, 8 * time.Minute, 100000}, {"d0", 6, 2 * time.Minute, 12000}, {"eor;full", 6, 3 * time.Minute, 30000}}
 	}
